@@ -10,6 +10,8 @@ import (
 	"fmt"
 	"math"
 	"os"
+	"reflect"
+	"sort"
 
 	"github.com/Comcast/rulio/core"
 	"github.com/Comcast/rulio/service"
@@ -156,6 +158,25 @@ func plainWithInts(x interface{}, mode int) interface{} {
 	return x
 }
 
+// shapeOf: dynamic type and (for containers) object identity of every bound value.
+func shapeOf(bs core.Bindings) string {
+	keys := make([]string, 0, len(bs))
+	for k := range bs {
+		keys = append(keys, k)
+	}
+	sort.Strings(keys)
+	out := ""
+	for _, k := range keys {
+		v := reflect.ValueOf(bs[k])
+		out += fmt.Sprintf("%s:%T", k, bs[k])
+		if v.IsValid() && (v.Kind() == reflect.Map || v.Kind() == reflect.Slice) {
+			out += fmt.Sprintf("@%x", v.Pointer())
+		}
+		out += ";"
+	}
+	return out
+}
+
 func toB(bss []core.Bindings) []ref.B {
 	out := make([]ref.B, len(bss))
 	for i, b := range bss {
@@ -183,7 +204,14 @@ func judge(r *rep.Report, c tcase) {
 		// rendering (int) follows the data so that equal numbers stay equal.
 		init[k] = plainWithInts(v, c.Mode)
 	}
+	// a binding the pattern never mentions, holding Go-typed containers: it must come back untouched
+	if c.Mode > 0 && len(c.Init) > 0 {
+		if _, used := ref.VarsOf(ref.Norm(c.P), nil)["?unused"]; !used {
+			init["?unused"] = core.Map{"k": []string{"a", "b"}}
+		}
+	}
 	pc, dc, ic := ref.Canon(p), ref.Canon(d), ref.Canon(map[string]interface{}(init))
+	is := shapeOf(init)
 	var bss []core.Bindings
 	var err error
 	if len(c.Init) == 0 && c.Mode%2 == 0 {
@@ -205,6 +233,10 @@ func judge(r *rep.Report, c tcase) {
 	if c.Mode > 0 {
 		r.Count("go_typed_inputs", 1)
 	}
+	if is2 := shapeOf(init); is2 != is {
+		r.Violate("", "core.Match replaced values of the caller's initial bindings (same JSON, other objects or Go types)", rep.J{"case": c, "before": is, "after": is2})
+		return
+	}
 	if ref.Canon(p) != pc || ref.Canon(d) != dc || ref.Canon(map[string]interface{}(init)) != ic {
 		r.Violate("", "core.Match modified its pattern, data or initial bindings", rep.J{"case": c, "before": []string{pc, dc, ic}, "after": []string{ref.Canon(p), ref.Canon(d), ref.Canon(map[string]interface{}(init))}})
 		return
@@ -212,6 +244,18 @@ func judge(r *rep.Report, c tcase) {
 	if err != nil {
 		r.Violate("", "core.Match returned an error for an in-fragment input: "+err.Error(), rep.J{"case": c})
 		return
+	}
+	for i, b := range bss {
+		if _, ok := b["?unused"]; ok {
+			// the harness's own extra binding is carried through; the reference does not know it
+			nb := core.Bindings{}
+			for k, v := range b {
+				if k != "?unused" {
+					nb[k] = v
+				}
+			}
+			bss[i] = nb
+		}
 	}
 	got := ref.CanonSet(toB(bss))
 	if verdict(r, c, got, want, "core.Match") && nontrivial && r.WantSample() {
@@ -341,6 +385,7 @@ func main() {
 	e := rep.GetEnv()
 	r := rep.New(e)
 	g := gen.New(e.BatchSeed())
+	g.Lookalikes = true
 	n := e.Pick(12000, 150000)
 	for i := 0; i < n/10; i++ {
 		p := ref.Norm(g.PatternFrom(g.Map(2), true))
@@ -358,6 +403,9 @@ func main() {
 	judge(r, tcase{P: ref.Norm(map[string]interface{}{"a": "?x", "b": "?x"}), D: ref.Norm(map[string]interface{}{"b": map[string]interface{}{"k": 1}, "a": map[string]interface{}{"k": 1, "j": 2}})})
 	judge(r, tcase{P: ref.Norm(map[string]interface{}{"a": []interface{}{"?x"}}), D: ref.Norm(map[string]interface{}{"a": []interface{}{1, 2, 3}})})
 	judge(r, tcase{P: ref.Norm(map[string]interface{}{"?k": 1}), D: ref.Norm(map[string]interface{}{"a": 1, "b": 2, "c": 1})})
+	// several bindings that differ only in the JSON type of the bound value
+	judge(r, tcase{P: ref.Norm(map[string]interface{}{"a": []interface{}{map[string]interface{}{"v": "?x"}}}), D: ref.Norm(map[string]interface{}{"a": []interface{}{map[string]interface{}{"v": 1}, map[string]interface{}{"v": "1"}}})})
+	judge(r, tcase{P: ref.Norm(map[string]interface{}{"tags": []interface{}{"?t"}}), D: ref.Norm(map[string]interface{}{"tags": []interface{}{true, "true", "null", nil, "s1 s2"}})})
 
 	for i := 0; i < n; i++ {
 		var p, d interface{}
